@@ -1,0 +1,120 @@
+//go:build verif
+
+// Contracts for the history rewriter (git lfs migrate).  Comment-only.
+package githistory
+
+// C12: rewriting a tree.  Every entry of the original tree yields exactly one
+// entry of the rewritten tree, in order, with the same file mode (and, unless
+// it is served from the entry cache, the same name); an entry whose path the
+// filter does not select, or which is a symbolic link, keeps its object id.
+//@ func (*Rewriter).rewriteTree
+//@   props C12
+//@   requires @inv r != nil && r.db != nil && r.mu != nil && r.entries != nil && tpfn != nil && tfn != nil && fn != nil
+//@   loop 1 iter len(entries) == iter(len(entries)) + 1 && entries[iter(len(entries))] != nil && entries[iter(len(entries))].Filemode == entry.Filemode
+//@   loop 1 iter forall_int(k, entries[k], 0 <= k && k < iter(len(entries)) ==> entries[k] == iter(entries[k]))
+//@   at call githistory.copyEntry:1 assert arg0__ == entry && !lastrwallow()
+//@   at call githistory.copyEntry:2 assert arg0__ == entry && entry.Filemode == 0120000
+//@   at call githistory.copyEntryMode:1 assert arg1__ == entry.Filemode && lastrwallow() && entry.Filemode != 0120000
+//@   at call (*githistory.Rewriter).rewriteBlob:1 assert lastrwallow() && entry.Filemode != 0120000 && arg2__ == entry.Oid && arg3__ == fullpath
+//@   at call (*githistory.Rewriter).rewriteTree:1 assert lastrwallow() && entry.Filemode != 0120000 && arg2__ == entry.Oid && arg3__ == fullpath
+//@   at call (*githistory.Rewriter).cacheEntry:1 assert arg3__ != nil && arg3__.Filemode == entry.Filemode && arg3__.Name == entry.Name && arg2__ == entry
+//@ func (*Rewriter).allows
+//@   assumed
+//@   props C12
+//@   modifies ghost lastrwallow
+//@   ensures result == lastrwallow()
+//@ func (*Rewriter).uncacheEntry
+//@   assumed
+//@   props C12
+//@   modifies fresh, ghost lastcached
+//@   ensures result == lastcached()
+//@ func (*Rewriter).cacheEntry
+//@   props C12
+//@   requires @inv r != nil && r.mu != nil && r.entries != nil && from != nil
+//@   modifies fresh, map r.entries, ghost locked, ghost lockcount
+//@   ensures result == to
+//@ func copyEntry
+//@   props C12
+//@   modifies fresh
+//@   ensures e != nil ==> result != nil && isfresh(result) && result.Filemode == e.Filemode && result.Name == e.Name && bytesOf(result.Oid) == bytesOf(e.Oid)
+//@   ensures e == nil ==> result == nil
+//@ func copyEntryMode
+//@   props C12
+//@   requires e != nil
+//@   modifies fresh
+//@   ensures result != nil && isfresh(result) && result.Filemode == mode && result.Name == e.Name && bytesOf(result.Oid) == bytesOf(e.Oid)
+//@ func (*Rewriter).entryKey
+//@   assumed
+//@   props C12
+//@   modifies fresh
+
+// A blob the rewrite function leaves alone keeps its id; otherwise the id is
+// that of the blob the function returned, as written to the database.
+//@ func (*Rewriter).rewriteBlob
+//@   props C12
+//@   requires @inv r != nil && r.db != nil && fn != nil
+//@   at call (*v2.ObjectDatabase).WriteBlob:1 assert !blob_equal(blob, b) && arg1__ == b
+//@   ensures result1 == nil && blob_same() ==> result0 == from
+//@ func functype:github.com/git-lfs/git-lfs/v3/git/githistory.BlobRewriteFn
+//@   assumed
+//@   modifies heap
+//@ func functype:github.com/git-lfs/git-lfs/v3/git/githistory.TreePreCallbackFn
+//@   assumed
+//@   modifies heap
+//@ func functype:github.com/git-lfs/git-lfs/v3/git/githistory.TreeCallbackFn
+//@   assumed
+//@   modifies heap
+
+// C12: rewriting a commit.  The new commit carries the original author,
+// committer (names and dates), extra headers and message; it has one parent
+// per original parent, in order - the rewritten parent if that commit is part
+// of the migration, the original one otherwise - and every visited commit is
+// entered into the commit cache under its own id.
+//@ func (*Rewriter).Rewrite
+//@   props C12
+//@   requires @inv r != nil && r.db != nil && r.mu != nil && r.commits != nil && r.logger != nil && opt != nil
+//@   loop 2 invariant len(rewrittenParents) == rangeindex + 1 && rangeindex + 1 <= len(original.ParentIDs)
+//@   loop 2 iter len(rewrittenParents) == iter(len(rewrittenParents)) + 1
+//@   loop 2 iter lastcommithit() ==> bytesOf(rewrittenParents[iter(len(rewrittenParents))]) == lastcommitval()
+//@   loop 2 iter !lastcommithit() ==> rewrittenParents[iter(len(rewrittenParents))] == originalParent
+//@   loop 2 iter forall_int(k, rewrittenParents[k], 0 <= k && k < iter(len(rewrittenParents)) ==> rewrittenParents[k] == iter(rewrittenParents[k]))
+//@   at call (*v2.ObjectDatabase).WriteCommit:1 assert arg1__ != nil && arg1__.Author == original.Author && arg1__.Committer == original.Committer && arg1__.Message == original.Message && arg1__.ExtraHeaders == original.ExtraHeaders
+//@   at call (*v2.ObjectDatabase).WriteCommit:1 assert len(arg1__.ParentIDs) == len(original.ParentIDs) && arg1__.TreeID == rewrittenTree
+//@   at call (*githistory.Rewriter).cacheCommit:1 assert arg1__ == oid
+//@   at call (*githistory.Rewriter).rewriteTree:1 assert arg1__ == oid && arg2__ == original.TreeID && arg3__ == ""
+//@ func (*Rewriter).uncacheCommit
+//@   assumed
+//@   props C12
+//@   modifies fresh, ghost lastcommithit, ghost lastcommitval
+//@   ensures result1 == lastcommithit() && bytesOf(result0) == lastcommitval()
+//@ func (*Rewriter).cacheCommit
+//@   assumed
+//@   props C12
+//@   modifies fresh, map r.commits
+//@ func (*Rewriter).commitsToMigrate
+//@   assumed
+//@   props C12
+//@   modifies fresh
+//@ func (*Rewriter).refsToMigrate
+//@   assumed
+//@   props C12
+//@   modifies fresh
+
+// C12: moving the refs.  A rewritten annotated tag keeps its name, tagger,
+// message and object type and points at the rewritten object; a ref is moved
+// only to the rewritten id of what it pointed at (or to the rewritten tag),
+// and not at all when its target was not part of the migration.
+//@ func (*refUpdater).updateOneTag
+//@   props C12
+//@   requires @inv r != nil && r.db != nil && tag != nil
+//@   at call (*v2.ObjectDatabase).WriteTag:1 assert arg1__ != nil && arg1__.Object == toObj && arg1__.ObjectType == tag.ObjectType && arg1__.Name == tag.Name && arg1__.Tagger == tag.Tagger && arg1__.Message == tag.Message
+//@ func (*refUpdater).updateOneRef
+//@   props C12
+//@   requires @inv r != nil && r.db != nil && ref != nil && seen != nil && r.cacheFn != nil
+//@   at call git.UpdateRefIn:1 assert arg1__ == ref && ok && arg2__ == to
+//@   at call (*githistory.refUpdater).updateOneTag:1 assert arg1__ == tag
+//@   at call (*githistory.refUpdater).updateOneTag:2 assert arg1__ == tag && okObj && arg2__ == toObj
+//@ func (*refUpdater).updateRefs
+//@   props C12
+//@   requires @inv r != nil && r.logger != nil
+//@   at call (*githistory.refUpdater).updateOneRef:1 assert arg4__ == ref && arg3__ == seen
